@@ -190,7 +190,9 @@ namespace xtl
             }
             else  // same types
             {
-                if (this->vtable != nullptr)
+                // swapping an object with itself is a no-op; the in-place swap below would
+                // otherwise move-construct from an already destroyed object
+                if (this->vtable != nullptr && this != &rhs)
                     this->vtable->swap(this->storage, rhs.storage);
             }
         }
